@@ -344,6 +344,8 @@ pub enum AppOp {
     Reset { flow: FlowKey, at: u64, code: u64 },
     RecvBegin { flow: FlowKey },
     RecvChunk { flow: FlowKey, off: u64, data: bytes::Bytes },
+    /// bytes read (and discarded unjudged) from a stream the scenario did not plan
+    Drained { flow: FlowKey, n: u64 },
     RecvEnd { flow: FlowKey, total: u64 },
     RecvErr { flow: FlowKey, at: u64, err: String, reset_code: Option<u64> },
     StopSending { flow: FlowKey, at: u64, code: u64 },
